@@ -45,9 +45,27 @@ CATEGORY = {
 }
 
 
+_CLASS_CACHE = {}
+
+
+def _expand_ignorecase(neg, rs, flags):
+    """The exact set of code points a class matches under IGNORECASE, obtained from CPython's own `re` by testing
+    every code point (cached per class).  Returns non-negated ranges."""
+    key = (neg, tuple(rs), flags & (re.IGNORECASE | re.ASCII))
+    if key in _CLASS_CACHE:
+        return _CLASS_CACHE[key]
+    body = "".join("\\U%08x-\\U%08x" % (a, b) if a != b else "\\U%08x" % a for a, b in rs)
+    if not body:
+        pat = re.compile("[^\\s\\S]" if not neg else "[\\s\\S]")
+    else:
+        pat = re.compile("[" + ("^" if neg else "") + body + "]", flags & (re.IGNORECASE | re.ASCII))
+    chars = [c for c in range(0x110000) if not (0xD800 <= c <= 0xDFFF) and pat.fullmatch(chr(c))]
+    out = rngs(chars)
+    _CLASS_CACHE[key] = out
+    return out
+
+
 def in_items(items, flags):
-    if flags & re.IGNORECASE:
-        raise Untranslatable("IGNORECASE class")
     neg = False
     rs = []
     for op, a in items:
@@ -61,6 +79,9 @@ def in_items(items, flags):
             raise Untranslatable("category %s inside a validator class (domain restriction needed)" % a)
         else:
             raise Untranslatable("class item %s" % op)
+    if flags & re.IGNORECASE:
+        # surrogates are excluded from the expansion: strings are sequences of scalar values
+        return False, _expand_ignorecase(neg, rs, flags)
     return neg, rs
 
 
@@ -152,11 +173,9 @@ class Tr:
     def one(self, it):
         op, a = it
         if op == sc.LITERAL:
-            if self.flags & re.IGNORECASE:
-                raise Untranslatable("IGNORECASE literal")
-            return cls(False, [(a, a)])
+            return cls(*in_items([(sc.LITERAL, a)], self.flags))
         if op == sc.NOT_LITERAL:
-            return cls(True, [(a, a)])
+            return cls(*in_items([(sc.NEGATE, None), (sc.LITERAL, a)], self.flags))
         if op == sc.IN:
             return cls(*in_items(a, self.flags))
         if op == sc.ANY:
@@ -177,7 +196,7 @@ class Tr:
 
 def full_mode(pattern_text, flags=0):
     """rx for `pat.match(s)` succeeding with every alternative `$`-terminated. Returns (coq_term, info)."""
-    if flags & ~(re.UNICODE):
+    if flags & ~(re.UNICODE | re.IGNORECASE | re.ASCII):
         raise Untranslatable("flags %r" % flags)
     tree = list(sp.parse(pattern_text, flags))
     if len(tree) == 1 and tree[0][0] == sc.BRANCH:
